@@ -760,10 +760,39 @@ impl World {
     }
 
     pub fn init_bundle(&mut self, owner: usize) -> Result<usize, Outcome> {
+        self.init_bundle_kind(owner, false)
+    }
+    /// `with_metadata`: through initialize_position_bundle_with_metadata (the Metaplex CPI is a stub)
+    pub fn init_bundle_kind(&mut self, owner: usize, with_metadata: bool) -> Result<usize, Outcome> {
         let ownerk = self.users[owner].key;
         let mint = self.fresh_mint_key();
         let bundle = position_bundle_pda(&mint);
         let ta = ata_of(&ownerk, &mint, &TOKEN);
+        if with_metadata {
+            let (md, _) = Pubkey::find_program_address(&[b"metadata", metadata_program().as_ref(), mint.as_ref()], &metadata_program());
+            let o = self.exec(&ixb(
+                wa::InitializePositionBundleWithMetadata {
+                    position_bundle: bundle,
+                    position_bundle_mint: mint,
+                    position_bundle_metadata: md,
+                    position_bundle_token_account: ta,
+                    position_bundle_owner: ownerk,
+                    funder: ownerk,
+                    metadata_update_auth: metadata_update_auth(),
+                    token_program: TOKEN,
+                    system_program: SYS,
+                    rent: sysvar::rent::ID,
+                    associated_token_program: ATA,
+                    metadata_program: metadata_program(),
+                },
+                wi::InitializePositionBundleWithMetadata {},
+            ));
+            if !o.ok() {
+                return Err(o);
+            }
+            self.bundles.push(BundleInfo { mint, bundle, token_account: ta, owner });
+            return Ok(self.bundles.len() - 1);
+        }
         let o = self.exec(&ixb(
             wa::InitializePositionBundle {
                 position_bundle: bundle,
